@@ -260,7 +260,15 @@ def run_parallel(rep, prop, modname, descs, max_patterns=1 << 17, nproc=16):
             if k in d2:
                 d2[k] = [d2[k][1], d2[k][0]]
         return d2
-    hist = [d for d in descs if ("grid" in d or "frame" in d)]
+    def _moderate(d):
+        # instances replayed several times inside one process (history sequences, two postings): structures of moderate
+        # size only -- every instance, the large ones included, is still judged once in the plain pass above
+        g = d.get("grid") or d.get("frame")
+        if g is None:
+            return d.get("n", 0) <= 14
+        cells = g[0] * g[1] if "grid" in d else (g[0] + 1) * (g[1] + 1)
+        return cells <= 36
+    hist = [d for d in descs if ("grid" in d or "frame" in d) and _moderate(d)]
     hist = hist[:: max(1, len(hist) // 60)]
     seqs = []
     if hist:
@@ -278,10 +286,11 @@ def run_parallel(rep, prop, modname, descs, max_patterns=1 << 17, nproc=16):
     tasks += [(modname, prop, sq, rep.tier, rep.seed, 192) for sq in seqs]
     # two postings on one solver (see run_instance): a sample of all instances, the deep ones included
     quick = rep.tier == "quick"
-    tw = [d for d in descs if d.get("deep") and not d.get("weave")] + [d for d in descs if not d.get("deep")][:: max(1, len(descs) // (40 if quick else 200))]
+    _small = _moderate
+    tw = [d for d in descs if d.get("deep") and not d.get("weave") and _small(d)] + [d for d in descs if not d.get("deep")][:: max(1, len(descs) // (40 if quick else 200))]
     tw = [dict(d, twice=True) for d in tw] + [dict(d, twice="shared") for d in tw if "edges" in d and d.get("edges")]
     ntw = min(len(tw), nproc) or 1
-    tasks += [(modname, prop, tw[i::ntw], rep.tier, rep.seed, 96 if quick else 1024) for i in range(ntw) if tw[i::ntw]]
+    tasks += [(modname, prop, tw[i::ntw], rep.tier, rep.seed, 96 if quick else 256) for i in range(ntw) if tw[i::ntw]]
     rep.coverage["two_postings_on_one_solver"] = len(tw)
     rep.coverage["history_sequences"] = [len(sq) for sq in seqs]
     seen = set(v["signature"] for v in rep.violations)
